@@ -241,14 +241,27 @@ def check_wrapper(an, cm, roles, res_c06, res_c07):
         if not ok_t:
             res.violate(Violation(res.prop, 'L4-WRAPPER', cm.name, '(class)', 'm_lock is not mutex<thread_safe_type>', f.loc,
                                   'm_lock has type %s' % f.type))
+    import re
     spec = None
+    foreign = None
+    STD_MUTEX = r'std::(recursive_|timed_|recursive_timed_|shared_|shared_timed_)?mutex\b'
     for s in an.prog.mutex_specs:
         args = [c for c in s.get('inner', []) if c.get('kind') == 'TemplateArgument']
         vals = [a.get('value') for a in args]
         if str(vals[0] if vals else None) == ('1' if an.ts == 'yes' else '0'):
             tys = [a.get('type', {}).get('qualType') for a in args]
-            if len(tys) > 1 and tys[1] and 'std::mutex' in tys[1]:
+            if len(tys) > 1 and tys[1] and re.search(STD_MUTEX, tys[1]):
                 spec = s
+            elif len(tys) > 1 and tys[1]:
+                foreign = (s, tys[1])
+    if spec is None and foreign is not None and an.ts == 'yes' and cm.name == 'lru_cache':
+        # the containers' lock is instantiated over something that is not a standard mutex: nothing excludes anything
+        for res in (res_c06, res_c07):
+            if res is not None:
+                res.ob('L4-WRAPPER', ok=False)
+                res.violate(Violation(res.prop, 'L4-WRAPPER', 'mutex', '(class)', 'underlying lock type is not a standard mutex',
+                                      foreign[0].get('_loc') or f.loc, 'mutex<thread_safe::yes> wraps %s' % foreign[1]))
+        return
     for res in (res_c06, res_c07):
         if res is None or cm.name != 'lru_cache':
             continue
@@ -269,7 +282,7 @@ def check_wrapper(an, cm, roles, res_c06, res_c07):
                         bt = (base.get('type', {}).get('desugaredQualType') or base.get('type', {}).get('qualType', ''))
                         calls.append((cal.get('name'), bt))
             if an.ts == 'yes':
-                ok = any(n == mname and 'std::mutex' in t for n, t in calls)
+                ok = any(n == mname and re.search(STD_MUTEX, t) for n, t in calls)
                 msg = 'mutex<yes>::%s does not call std::mutex::%s' % (mname, mname)
             else:
                 ok = not calls
